@@ -169,4 +169,24 @@ ErrProg(f, h) ==
 ErrFamily == {ErrProg(f, h) : f \in Faults, h \in {"none", "next", "line", "retry", "inh", "off", "fall"}}
               \cup {PE(<<Ln(10, <<Prt(C(1)), [op |-> "RESUME", w |-> "0", n |-> 0, col |-> TRUE]>>)>>,
                        [kind |-> "err", expect |-> <<1>>, endk |-> "error", code |-> 20, line |-> 10])}
+(* ---------------- C38: event traps (explored under every interleaving of occurrences) ---------------- *)
+TrapCmd(k, c) == [op |-> "TRAP", k |-> k, c |-> c, col |-> TRUE]
+OnTrap(k, n) == [op |-> "ONTRAP", k |-> k, n |-> n, col |-> TRUE]
+Ret == [op |-> "RETURN", n |-> 0, col |-> TRUE]
+\* c1, c2: commands for trap 1 in the main program; h: what handler 1 does; two: a second trap is armed;
+\* er: the main program raises an error that is trapped (handler 200 RESUMEs NEXT)
+TrapProg(c1, c2, h, two, er) ==
+    PE(<<Ln(5,  IF er THEN <<[op |-> "ONERR", n |-> 200, col |-> TRUE]>> ELSE <<Prt(C(0))>>),
+         Ln(10, <<OnTrap(1, 100)>> \o (IF two THEN <<OnTrap(2, 150), TrapCmd(2, "ON")>> ELSE <<>>)),
+         Ln(20, <<TrapCmd(1, c1)>>),
+         Ln(30, <<Prt(C(1))>>),
+         Ln(40, <<TrapCmd(1, c2)>> \o (IF er THEN <<[op |-> "ERROR", e |-> C(5), col |-> TRUE]>> ELSE <<>>)),
+         Ln(50, <<Prt(C(2))>>),
+         Ln(60, <<EndS>>),
+         Ln(100, <<Prt(C(9))>> \o (IF h = "none" THEN <<>> ELSE <<TrapCmd(1, h)>>) \o <<Prt(C(8)), Ret>>),
+         Ln(150, <<Prt(C(7)), Ret>>),
+         Ln(200, <<Prt(C(6)), Prt(C(5)), [op |-> "RESUME", w |-> "NEXT", n |-> 0, col |-> TRUE]>>)>>,
+       [kind |-> "trap", expect |-> <<>>, endk |-> "end", code |-> 0, line |-> 0])
+TrapFamily == {TrapProg(c1, c2, h, two, er) : c1 \in {"ON", "OFF", "STOP"}, c2 \in {"ON", "OFF", "STOP"},
+                                              h \in {"none", "ON", "OFF", "STOP"}, two \in BOOLEAN, er \in BOOLEAN}
 =============================================================================
